@@ -26,10 +26,10 @@ var (
 
 type c12cReq struct {
 	kind int // 0 sign+verify, 1 verify a pre-made signature, 2 batch of pre-made signatures
-	msg  []byte
+	src  *c12Src // the message of kind 0 through one of the three transcript constructors
 	ent  []byte
 	pre  []*sr25519.Signature
-	pmsg [][]byte
+	psrc []*c12Src
 }
 
 func init() {
@@ -38,7 +38,7 @@ func init() {
 		Property: "C12",
 		Phase:    "concurrent signers and verifiers sharing one signing context and key pair",
 		Variants: []string{"instrw"},
-		Rule: "per run: one SigningContext and one KeyPair shared by 2..4 tasks x 1..3 requests (sign + verify, verify, batch verify) over task-specific messages and fixed entropy; every context switch is a tape draw at a statement-level yield inside primitives/sr25519 and primitives/merlin; oracle: each signature byte-equals the schnorrkel model for its own message and entropy, every signature verifies singly and in a batch; " +
+		Rule: "per run: one SigningContext and one KeyPair shared by 2..4 tasks x 1..3 requests (sign + verify, verify, batch verify) over task-specific messages (each through NewTranscriptBytes, NewTranscriptHash or NewTranscriptXOF of the shared context) and fixed entropy; every context switch is a tape draw at a statement-level yield inside primitives/sr25519 and primitives/merlin; oracle: each signature byte-equals the schnorrkel model for its own message and entropy, every signature verifies singly and in a batch; " +
 			"non-trivial = at least one switch while the leaving task was inside a request; distinct = distinct event-log digests",
 		Real: []string{"primitives/sr25519 and primitives/merlin (statement yields spliced in)", "reference: schnorrkel model (Merlin model + math/big)"},
 		Stub: []string{"goroutine scheduler (rt)", "entropy: fixed 32-byte strings"},
@@ -59,26 +59,32 @@ func runC12C(e *Env, r *core.Run) {
 	skm := model.SrExpandUniform(mini)
 	pkb := marshalOwned(kp.PublicKey().MarshalBinary())
 	ctx := g.Bytes(t.W(16))
-	sc := sr25519.NewSigningContext(ctx)
+	// every transcript of the run is made from this one context object, through all three constructors
+	cs := &c12Ctxs{}
+	mkSrc := func(msg []byte) *c12Src {
+		src := &c12Src{cs: cs, ctx: ctx, kind: t.W(3), hsel: t.W(6), msg: msg}
+		src.resolve()
+		return src
+	}
 	pk := kp.PublicKey()
 	ntasks := 2 + t.W(3)
 	scripts := make([][]c12cReq, ntasks)
 	total := 0
 	for i := range scripts {
 		for j := 0; j < 1+t.W(3); j++ {
-			q := c12cReq{kind: t.W(3), msg: append(g.Bytes(t.W(40)), byte(i), byte(j)), ent: g.Bytes(32)}
+			q := c12cReq{kind: t.W(3), src: mkSrc(append(g.Bytes(t.W(40)), byte(i), byte(j))), ent: g.Bytes(32)}
 			if q.kind >= 1 {
 				n := 1
 				if q.kind == 2 {
 					n = 1 + t.W(4)
 				}
 				for k := 0; k < n; k++ {
-					pm := append(g.Bytes(t.W(20)), byte(i), byte(j), byte(k))
-					s, err := kp.Sign(NewFixedReader(g.Bytes(32)), sc.NewTranscriptBytes(pm))
+					ps := mkSrc(append(g.Bytes(t.W(20)), byte(i), byte(j), byte(k)))
+					s, err := kp.Sign(NewFixedReader(g.Bytes(32)), ps.fresh())
 					if err != nil {
 						panic("harness: pre-sign")
 					}
-					q.pre, q.pmsg = append(q.pre, s), append(q.pmsg, pm)
+					q.pre, q.psrc = append(q.pre, s), append(q.psrc, ps)
 				}
 			}
 			scripts[i] = append(scripts[i], q)
@@ -110,7 +116,7 @@ func runC12C(e *Env, r *core.Run) {
 				rt.EnterOp()
 				switch q.kind {
 				case 0:
-					st := sc.NewTranscriptBytes(q.msg)
+					st := q.src.fresh()
 					sig, err := kp.Sign(NewFixedReader(q.ent), st)
 					ok := err == nil && pk.Verify(st, sig)
 					if err == nil {
@@ -123,7 +129,7 @@ func runC12C(e *Env, r *core.Run) {
 						l.Fail("completeness", "fresh-signature-rejected-under-concurrency", "a signature made while other signers shared the context and key pair does not verify (err=%v)", err)
 					}
 				case 1:
-					ok := pk.Verify(sc.NewTranscriptBytes(q.pmsg[0]), q.pre[0])
+					ok := pk.Verify(q.psrc[0].fresh(), q.pre[0])
 					rt.ExitOp()
 					l.Ev("req %d verify -> %v", j, ok)
 					r.Count(c12cVer)
@@ -133,7 +139,7 @@ func runC12C(e *Env, r *core.Run) {
 				default:
 					bv := sr25519.NewBatchVerifier()
 					for k := range q.pre {
-						bv.Add(pk, sc.NewTranscriptBytes(q.pmsg[k]), q.pre[k])
+						bv.Add(pk, q.psrc[k].fresh(), q.pre[k])
 					}
 					ok, res := bv.Verify(NewFixedReader(q.ent))
 					rt.ExitOp()
@@ -160,7 +166,7 @@ func runC12C(e *Env, r *core.Run) {
 			if q.kind != 0 || sigs[i][j] == nil {
 				continue
 			}
-			want := model.SrSign(model.SrTranscript(ctx, "sign-bytes", q.msg), skm, pkb, q.ent, srMulBase)
+			want := model.SrSign(q.src.model(), skm, pkb, q.ent, srMulBase)
 			if !bytes.Equal(sigs[i][j], want) {
 				r.Fail("exactness", "signature-differs-from-model-under-concurrency", "task %d request %d: with other signers sharing the context and key pair the signature is %x, the schnorrkel model gives %x", i, j, sigs[i][j], want)
 				return
